@@ -65,8 +65,51 @@ func (g *mapOpGen) next() rec {
 	return rec{Client: g.client, Op: opRange, Arg: stop}
 }
 
+// kvMap is the API of a sync2.Map seen through int keys and int64 values;
+// *sync2.Map[int, int64] implements it directly, typedMap adapts other
+// instantiations (multi-word keys and values).
+type kvMap interface {
+	Load(int) (int64, bool)
+	Store(int, int64)
+	LoadOrStore(int, int64) (int64, bool)
+	LoadAndDelete(int) (int64, bool)
+	Delete(int)
+	Range(func(int, int64) bool)
+}
+
+// typedMap drives a sync2.Map[string, pairV]: string keys, two-word values whose
+// halves must always belong together.
+type typedMap struct {
+	m    sync2.Map[string, pairV]
+	torn *bool
+}
+
+func tk(k int) string  { return fmt.Sprintf("key-%d", k) }
+func tv(v int64) pairV { return pairV{v, -v} }
+func (t *typedMap) un(p pairV, ok bool) (int64, bool) {
+	if ok && p.B != -p.A {
+		*t.torn = true
+	}
+	return p.A, ok
+}
+func (t *typedMap) Load(k int) (int64, bool) { return t.un(t.m.Load(tk(k))) }
+func (t *typedMap) Store(k int, v int64)     { t.m.Store(tk(k), tv(v)) }
+func (t *typedMap) LoadOrStore(k int, v int64) (int64, bool) {
+	return t.un(t.m.LoadOrStore(tk(k), tv(v)))
+}
+func (t *typedMap) LoadAndDelete(k int) (int64, bool) { return t.un(t.m.LoadAndDelete(tk(k))) }
+func (t *typedMap) Delete(k int)                      { t.m.Delete(tk(k)) }
+func (t *typedMap) Range(f func(int, int64) bool) {
+	t.m.Range(func(k string, p pairV) bool {
+		var id int
+		fmt.Sscanf(k, "key-%d", &id)
+		v, _ := t.un(p, true)
+		return f(id, v)
+	})
+}
+
 // doMapOp executes one call on the real map and fills in its result.
-func doMapOp(m *sync2.Map[int, int64], o *rec) {
+func doMapOp(m kvMap, o *rec) {
 	switch o.Op {
 	case opLoad:
 		o.Val, o.Ok = m.Load(o.Key)
@@ -116,7 +159,7 @@ func applyModel(model map[int]int64, o rec) (val int64, ok bool) {
 }
 
 // seqStep runs one call against map and model and compares; returns "" or a message.
-func seqStep(m *sync2.Map[int, int64], model map[int]int64, o *rec) (sig, msg string) {
+func seqStep(m kvMap, model map[int]int64, o *rec) (sig, msg string) {
 	doMapOp(m, o)
 	if o.Op == opRange {
 		seen := map[int]bool{}
@@ -150,24 +193,39 @@ func seqStep(m *sync2.Map[int, int64], model map[int]int64, o *rec) (sig, msg st
 func c04seq(c *core.Ctx) {
 	r := c.R
 	hooksOff()
-	var m sync2.Map[int, int64]
+	var im sync2.Map[int, int64]
+	torn := false
+	tm := &typedMap{torn: &torn}
+	var m kvMap = &im
+	layout := func() string { return layoutOfMap(&im) }
+	if c.Index%6 == 5 {
+		m = tm
+		layout = func() string { return layoutOfMap(&tm.m) }
+		c.Count("seq_histories_string_keys_struct_values", 1)
+	}
 	model := map[int]int64{}
 	nk := r.Range(1, 6)
+	n := r.Range(1, 300)
+	if c.Index%5 == 3 {
+		nk, n = r.Range(7, 40), r.Range(100, 800) // bigger maps: promotion thresholds grow with the dirty map
+	}
 	keys := make([]int, nk)
 	for i := range keys {
 		keys[i] = i
 	}
 	g := &mapOpGen{r: r, client: 0, keys: keys, rangeW: 6}
-	n := r.Range(1, 300)
 	var hist []rec
-	prev := layoutOfMap(&m)
+	prev := layout()
 	for i := 0; i < n; i++ {
 		o := g.next()
 		// bias towards misses on absent keys (they drive promotion)
 		if o.Op == opLoad && r.Chance(1, 3) {
 			o.Key = nk + r.Intn(2)
 		}
-		sig, msg := seqStep(&m, model, &o)
+		sig, msg := seqStep(m, model, &o)
+		if torn {
+			sig, msg = "torn-value", "a two-word value came back with halves that do not belong together"
+		}
 		hist = append(hist, o)
 		c.Count("seq_calls", 1)
 		c.Count("seq_"+opNames[o.Op], 1)
@@ -175,7 +233,7 @@ func c04seq(c *core.Ctx) {
 			c.Violate("seq:"+sig, msg+fmt.Sprintf(" [sequential, call %d]", i), map[string]any{"history": histStrings(hist, 400)})
 			return
 		}
-		cur := layoutOfMap(&m)
+		cur := layout()
 		if cur != "" {
 			c.Distinct("layout_states", core.HashString(cur))
 			c.Distinct("layout_transitions", core.HashString(prev+"|"+opNames[o.Op]+"|"+cur))
@@ -201,7 +259,7 @@ func c04seq(c *core.Ctx) {
 
 // prefix applies 0..12 sequential calls so that the concurrent part starts from
 // every layout of the read/dirty/expunged machine.
-func c04prefix(r *core.Rand, m *sync2.Map[int, int64], keys []int, max int) (map[int]int64, []rec, string) {
+func c04prefix(r *core.Rand, m kvMap, keys []int, max int) (map[int]int64, []rec, string) {
 	model := map[int]int64{}
 	g := &mapOpGen{r: r, client: 0, keys: keys, rangeW: 3}
 	n := r.Intn(max + 1)
@@ -468,7 +526,9 @@ func c04lin(c *core.Ctx) {
 		}()
 	}
 	close(start)
-	wg.Wait()
+	if !joinOrDeadlock(c, &wg, "lin", "a round of concurrent map calls", map[string]any{"goroutines": ng, "ops_each": nops, "hook_policy": policy}) {
+		return
+	}
 	hooksOff()
 	var h []rec
 	for _, l := range logs {
@@ -558,7 +618,9 @@ func c04race(c *core.Ctx) {
 		}()
 	}
 	close(start)
-	wg.Wait()
+	if !joinOrDeadlock(c, &wg, "race", "a round of concurrent map calls", map[string]any{"goroutines": ng, "ops_each": nops, "hook_policy": policy}) {
+		return
+	}
 	hooksOff()
 	c.Count("race_rounds", 1)
 	c.Count("race_policy_"+policy, 1)
